@@ -30,7 +30,7 @@ TECHNIQUE = (
     "cache-reset model validated against fresh interpreters"
 )
 LEVEL_TEXT = (
-    "50 calls (einsum, array_contract, array_contract_path/tree/expression, "
+    "55 calls (einsum, array_contract, array_contract_path/tree/expression, "
     "einsum_expression, expression reuse on new arrays) differing pairwise "
     "in one cache-key component (output order, one size, optimize as preset "
     "/ tuple path / list path / nested-list path / edge path, "
@@ -135,6 +135,14 @@ def build_pool():
                optimize=[(0, 1), (0, 1)])
     add_einsum("opt-path-nested-list", "ab,bc,cd->ad", sd,
                optimize=[[1, 2], [0, 1]])
+    # an unhashable optimize (list of lists, as array_contract_path used to
+    # return) together with non-default options: the cache is bypassed, the
+    # options must survive
+    add_einsum("opt-path-nested-list+strip-exponent", "ab,bc,cd->ad", sd,
+               optimize=[[1, 2], [0, 1]], strip_exponent=True)
+    add_einsum("opt-path-nested-list+prefer-einsum", "ab,bc,cd->ad", sd,
+               optimize=[[1, 2], [0, 1]], prefer_einsum=True,
+               implementation="cotengra")
     add_einsum("opt-edge-path", "ab,bc,cd->ad", sd, optimize=("b", "c"))
     add_einsum("opt-edge-path2", "ab,bc,cd->ad", sd, optimize=["c", "b"])
     add_einsum("strip-exponent", "ab,bc,cd->ad", sd, strip_exponent=True)
@@ -240,6 +248,22 @@ def build_pool():
 
     P["path-returned-object-modified-between-calls"] = dict(
         fn=path_scribbled, want=None)
+    # explicit LINEAR path as a tuple (an edge path is a tuple too: what an
+    # explicit path means is decided by its content, not by its type)
+    P["path-linear-tuple"] = dict(
+        fn=lambda cache: path_obs(ctg.array_contract_path(
+            base_in, ("a", "d"), sd, optimize=((1, 2), (0, 1)),
+            cache=cache), 3),
+        want=["path", [[1, 2], [0, 1]]])
+    P["path-linear-list"] = dict(
+        fn=lambda cache: path_obs(ctg.array_contract_path(
+            base_in, ("a", "d"), sd, optimize=[(0, 1), (0, 1)],
+            cache=cache), 3),
+        want=["path", [[0, 1], [0, 1]]])
+    P["path-edge-list-cb"] = dict(
+        fn=lambda cache: path_obs(ctg.array_contract_path(
+            base_in, ("a", "d"), sd, optimize=["c", "b"], cache=cache), 3),
+        want=["path", [[1, 2], [0, 1]]])
     P["path-nested-list"] = dict(
         fn=lambda cache: path_obs(ctg.array_contract_path(
             base_in, ("a", "d"), sd, optimize=[[0, 2], [0, 1]],
